@@ -85,6 +85,11 @@ pub fn model_of(scenario: &Scenario) -> Model {
                 cur.root = Some(path.clone());
                 states.push(cur.clone());
             }
+            Op::Close { path } => {
+                // no re-analysis happens at a close; from the next notification on the file
+                // on disk counts again for this document
+                cur.open.remove(path);
+            }
             Op::DiskWrite { path, text } => {
                 disk.insert(path.clone(), FileState::Text(text.clone()));
             }
@@ -107,9 +112,13 @@ pub fn model_of(scenario: &Scenario) -> Model {
                 pending.push(k);
             }
             Op::Sync => pending.clear(),
-            o if o.is_disk() => {
+            Op::DiskWrite { path, .. } | Op::DiskRemove { path } | Op::DiskUnreadable { path } => {
+                // a document that is open is served from its buffer: the disk is not consulted
+                // for it, so only changes to files that are NOT open are racy
                 for s in &pending {
-                    racy[*s] = true;
+                    if !states[*s].open.contains_key(path) {
+                        racy[*s] = true;
+                    }
                 }
             }
             _ => {}
